@@ -94,3 +94,19 @@ Fixpoint inR (c : ctx) (e o : expr) {struct e} : bool :=
   | Assert x => match o with Assert x' => inR TypeAssertion x x' | _ => false end
   | IfE x => match o with IfE x' => inR Std x x' | _ => false end
   end.
+
+(* ---------- the premise of the idempotence theorem (ParensIdem.v, C06) ---------- *)
+(* starts with a unary minus, looking through parentheses and type assertions *)
+Fixpoint sn (e : expr) : bool := match e with Un Neg _ => true | Paren x | Assert x => sn x | _ => false end.
+(* guard-free: no unary minus in front of such an operand, anywhere *)
+Fixpoint gf (e : expr) : bool :=
+  match e with
+  | Un u x => (match u with Neg => negb (sn x) | _ => true end) && gf x
+  | Paren x | Assert x | IfE x => gf x
+  | Bin _ l r => gf l && gf r
+  | Atom | Multi => true
+  end.
+
+(* ---------- conditions: every layer of parentheses around them goes (stmt.rs remove_condition_parentheses); theorems in ParensIdem.v ---------- *)
+Definition first_value (s : sem) : sem := match s with SMulti => STrunc | s => s end.
+Fixpoint strip (e : expr) : expr := match e with Paren x => strip x | _ => e end.
